@@ -104,7 +104,7 @@ func (Engine) Generate(r *simcore.RNG, tier string, idx int) *simcore.Plan {
 		if cl == 1 {
 			clw = 1
 		}
-		switch r.Weighted([]int{14, 12, 10, 10, 5, 8, 8, 7 * clw, 4 * clw, 3 * clw, 6, 13, 3, 2}) {
+		switch r.Weighted([]int{14, 12, 10, 10, 5, 8, 8, 7 * clw, 4 * clw, 3 * clw, 6, 13, 3, 2, 4}) {
 		case 0:
 			st.Op = "lock"
 			kind := r.Weighted([]int{70, 0, 4, 6})
@@ -161,6 +161,9 @@ func (Engine) Generate(r *simcore.RNG, tier string, idx int) *simcore.Plan {
 			st.A = []int64{r.Range(1, 30)}
 		case 13:
 			st.Op = "restart"
+		case 14:
+			st.Op = "beginall" // the bulk message: must refuse as a whole while one of the owner's locks is delegated
+			st.A = []int64{r.Range(0, 3)}
 		}
 		if faults && r.Chance(0.2) && st.Op != "advance" && st.Op != "sweep" && st.Op != "restart" {
 			if r.Chance(0.35) {
@@ -777,6 +780,36 @@ func (w *world) build(st simcore.Step) (sdk.Msg, func(simchain.Result), bool) {
 			l.amount = l.amount.Sub(part)
 			w.locks[nid] = &refLock{id: nid, owner: l.owner, denom: l.denom, cl: l.cl, amount: part, duration: l.duration, unlockEnd: now.Add(l.duration)}
 		}, l.state == delegated
+	case "beginall":
+		o := int(st.Arg(0)) % w.owners
+		mustFail, blocked := false, false
+		for _, id := range w.sortedIDs() {
+			l := w.locks[id]
+			if l.owner != o || l.unlocking() {
+				continue
+			}
+			if l.state == delegated {
+				mustFail = true
+			}
+			if l.state != plain {
+				blocked = true // a lock carrying a staking or unstaking marker makes the bulk message fail
+			}
+		}
+		if mustFail {
+			w.run.Probe("begin-unlocking-all-with-delegated-lock")
+		}
+		msg := &lockuptypes.MsgBeginUnlockingAll{Owner: n.Accts[o].String()}
+		return msg, func(res simchain.Result) {
+			if blocked {
+				w.run.Fail("C11", "must-fail", "beginall", "MsgBeginUnlockingAll succeeded although owner %d has a lock with a staking/unstaking marker that has not started unlocking", o)
+				return
+			}
+			for _, id := range w.sortedIDs() {
+				if l := w.locks[id]; l.owner == o && !l.unlocking() && l.state == plain {
+					l.unlockEnd = now.Add(l.duration)
+				}
+			}
+		}, mustFail
 	case "clcreate":
 		if w.clPool == 0 {
 			return nil, nil, false
